@@ -1464,6 +1464,10 @@ class _ImmediateLoader(_PostLoader):
 
         key = self.key
         lazyloader = self.parent_property._get_strategy((("lazy", "select"),))
+        if loadopt and loadopt._extra_criteria:
+            extra_criteria = loadopt._generate_extra_criteria(context)
+        else:
+            extra_criteria = ()
         for state, overwrite in states:
             dict_ = state.dict
 
@@ -1471,6 +1475,8 @@ class _ImmediateLoader(_PostLoader):
                 value = lazyloader._load_for_state(
                     state,
                     flags,
+                    loadopt=loadopt,
+                    extra_criteria=extra_criteria,
                     extra_options=extra_options,
                     alternate_effective_path=alternate_effective_path,
                     execution_options=execution_options,
